@@ -3,7 +3,7 @@
    established by the differential run on timed scenarios; what is proved here is the test every timeout decision goes through. *)
 From Coq Require Import ZArith NArith List Bool.
 Import ListNotations.
-From EIO Require Import Server ServerInv ServerProofs ServerCor ServerTiming ServerUpg ServerHb ServerSvc.
+From EIO Require Import Server ServerInv ServerProofs ServerCor ServerTiming ServerUpg ServerHb ServerSvc ServerTimers.
 
 (* a session is found timed out exactly when a PING is outstanding and strictly more than ping_timeout has passed since it *)
 Theorem c07_expired_iff : forall cfg ss t,
@@ -48,9 +48,36 @@ Theorem c07_monitor_never_dies : forall cfg ops, c_monitor cfg = true ->
   svc_pending s = true \/ exists t e, alookup t (tasks s) = Some e /\ monitor_task s t e.
 Proof. exact monitor_never_dies. Qed.
 
+(* the last sentence of the property, in the model and for every history with a forward-running clock and every schedule: every
+   pending long poll (the GET of a polling client, the wait of a WebSocket writer) is due within ping_interval + ping_timeout ... *)
+Theorem c07_poll_deadline_bounded : forall cfg ops, forward_history ops ->
+  let s := fst (run_sched cfg ops (init cfg) []) in
+  forall t e i k tm, alookup t (tasks s) = Some e -> t_task e = TPoll i k tm -> (fst tm <= now s + (c_interval cfg + c_timeout cfg))%Z.
+Proof. exact poll_deadline_bounded. Qed.
+(* ... the clock never skips a deadline: from ANY state, once it has been advanced by dt (and the model did not run out of fuel)
+   nothing is left runnable, the clock stands at now + dt, and every timer still pending (poll time-out, next PING, next visit of the
+   monitor, WebSocket read time-out) is due strictly later ... *)
+Theorem c07_clock_honours_timers : forall cfg dt ch s, (0 <= dt)%Z ->
+  let r := apply_op cfg (OpAdvance dt) ch s in
+  ~ In OOutOfFuel (outof r) ->
+  now (stof r) = (now s + dt)%Z /\ runq (stof r) = [] /\
+  forall t e tm, alookup t (tasks (stof r)) = Some e -> timer_of (t_task e) = Some tm -> t_tout e = false -> (now s + dt < fst tm)%Z.
+Proof. exact clock_honours_timers. Qed.
+(* ... so no long poll outlives ping_interval + ping_timeout *)
+Theorem c07_no_poll_outlives_timeout : forall cfg ops dt ch, forward_history ops -> (c_interval cfg + c_timeout cfg <= dt)%Z -> (0 <= dt)%Z ->
+  let s := fst (run_sched cfg ops (init cfg) []) in
+  let r := apply_op cfg (OpAdvance dt) ch s in
+  ~ In OOutOfFuel (outof r) ->
+  forall t e i k tm, alookup t (tasks s) = Some e -> t_task e = TPoll i k tm ->
+  forall e', alookup t (tasks (stof r)) = Some e' -> t_tout e' = false -> t_task e' <> t_task e.
+Proof. exact no_poll_outlives_timeout. Qed.
+
 Print Assumptions c07_expired_iff.
 Print Assumptions c07_live_peer_never_dropped.
 Print Assumptions c07_deadline_exact.
 Print Assumptions c07_ping_rearmed.
 Print Assumptions c07_heartbeat_never_stalls.
 Print Assumptions c07_monitor_never_dies.
+Print Assumptions c07_poll_deadline_bounded.
+Print Assumptions c07_clock_honours_timers.
+Print Assumptions c07_no_poll_outlives_timeout.
